@@ -148,6 +148,8 @@ class Engine(Interp, ExecMixin, EvalMixin, CallMixin, BuiltinMixin):
             for m in c.modifies:
                 self.havoc_location(st, m, fr)
             if outcome[0] == "normal":
+                if st.bound:
+                    return self.apply_under_binder(st, c, env, short, conds, nd, mri)
                 res = self.fresh_of(st, parse_T(c.returns), "ret_" + short.replace(".", "_")) if c.returns else NONE
                 env["result" if "result" not in [p for p, _ in c.params] else "result_"] = res
                 st.ghost.setdefault("effects", []).append(("call:" + short, "call:" + short, list(args), dict(kwargs), res))
@@ -161,6 +163,26 @@ class Engine(Interp, ExecMixin, EvalMixin, CallMixin, BuiltinMixin):
         finally:
             st.old_heap, st.old_env = saved_old
             st.frames.pop()
+
+    def apply_under_binder(self, st, c: Contract, env, short, conds, nd, mri):
+        """A contract-cut call inside a comprehension body (the element variable is bound): the result is a skolem
+        function of the bound variables and the postconditions are assumed closed over them.  Only callees that cannot
+        raise and have no precondition and no frame are admitted (nothing would check those under the binder)."""
+        if c.requires or conds or nd or mri or c.modifies:
+            raise OutsideSubset(f"call of {short} under a binder: the callee has requires/raises/modifies clauses")
+        rt = self.resolve_T(parse_T(c.returns)) if c.returns else None
+        if rt is None or not rt.is_smt():
+            raise OutsideSubset(f"call of {short} under a binder: result sort {c.returns} is not an SMT sort")
+        st.fresh_n += 1
+        bs = list(st.bound)
+        fn = smt.ufunc(f"ret.{short}!{st.fresh_n}", *[b.sort() for b in bs], rt.z3sort())
+        res = Z(rt, fn(*bs))
+        env["result" if "result" not in [p for p, _ in c.params] else "result_"] = res
+        for e in c.ensures:
+            g = self.truthy(st, self.ev_spec(st, e))
+            # handed to the enclosing comprehension, which states it per index of its source sequence (seq_map_core)
+            st.ghost.setdefault("__pending_binder", []).append((bs[-1], g))
+        return res
 
     def check_decreases(self, st, c: Contract, short):
         cur = getattr(self, "current_rank", None)
